@@ -1675,6 +1675,27 @@ class SafeGen:
         lo = r.randrange(0, s.nbits)
         return _Slice(s, lo, r.randint(lo + 1, s.nbits))
 
+    def negword(self, d):
+        """An operand whose value in the SIMULATOR can be a negative Python int while its Migen width equals the
+        self-determined width of its text (so both sides agree on its bit pattern): `~word`, a signed signal, a
+        negative signed constant, `-s` / `~s` of a signed signal.  Used in every self-determined operand position the
+        Evaluator implements (Cat element, Replicate operand, Mux / If condition, shift operand): the Evaluator has to
+        reduce such a value to the operand's width itself."""
+        r = self.rng
+        k = r.random()
+        if self.s and k < 0.3:
+            return r.choice(self.s)
+        if self.s and k < 0.45:
+            return _Operator(r.choice(["~", "-"]), [r.choice(self.s)])
+        if k < 0.55:
+            w = r.randint(1, 5)
+            return Constant(r.randint(-(1 << (w - 1)), -1), (w, True))
+        return _Operator("~", [self.word(d - 1)])
+
+    def selfdet(self, d):
+        """Operand of a self-determined position: an unsigned word or (40 %) a negative-valued operand."""
+        return self.negword(d) if self.rng.random() < 0.4 else self.word(d - 1)
+
     def anyatom(self):
         k = self.rng.random()
         if self.s and k < 0.35:
@@ -1713,15 +1734,18 @@ class SafeGen:
             return _Operator(r.choice(BITW), [self.word(d - 1), self.word(d - 1)])
         if k < 0.62:
             c = self.boolean(d - 1, True)
-            if r.random() < 0.3:
+            k2 = r.random()
+            if k2 < 0.3:
                 c = _Operator("~", [c])       # unbounded value -1/-2: the simulator masks it to 1 bit
+            elif k2 < 0.5:
+                c = self.negword(d)           # wide condition with a negative simulator value: true iff non-zero bits
             return Mux(c, self.word(d - 1), self.word(d - 1))
         if self.s and k < 0.66:
             return self.sslice()
         if k < 0.78:
-            return Cat(*[self.word(d - 1) for _ in range(r.randint(1, 3))])
+            return Cat(*[self.selfdet(d) for _ in range(r.randint(1, 3))])
         if k < 0.84:
-            return Replicate(self.word(d - 1), r.randint(1, 3))
+            return Replicate(self.selfdet(d), r.randint(1, 3))
         if k < 0.92:
             return _Operator(">>>", [self.atom(), Constant(r.randint(0, 3))])
         return self.boolean(d - 1)
@@ -1756,6 +1780,9 @@ class SafeGen:
             return _Operator("~", [self.word(d - 1)])
         if k < 0.72 and self.s:
             return _Operator("-", [r.choice(self.s)])
+        if k < 0.76 and self.s:
+            # arithmetic right shift of a (possibly negative) signed signal, at the top of a right-hand side
+            return _Operator(">>>", [r.choice(self.s), Constant(r.randint(0, 3))])
         if k < 0.85:
             return self.boolean(d, True)
         return self.word(d)
